@@ -480,7 +480,10 @@ class HTTPChannel(wasyncore.dispatcher):
             else:
                 task.close_on_finish = True
 
-        if task.close_on_finish:
+        if task.close_on_finish or self.will_close:
+            # will_close: a flush made by this thread hit a socket error and
+            # the connection is being given up; requests queued behind this
+            # one must not be executed any more
             with self.requests_lock:
                 self.close_when_flushed = True
 
